@@ -254,6 +254,8 @@ class Adapter(EnvAdapter):
             out.append(_c(f"n{n}_k1_t7", "random_walk", n, 1, tl=7, episodes=10, max_steps=10, policies=LIMIT))
             out.append(_c(f"n{n}_k200", "random_walk", n, 200, episodes=10, max_steps=40,
                           policies=["solve", "random", "mostly_masked"] if n <= 3 else ["random", "mostly_masked"]))
+        out.append(_c("n6_dense_k12", "random_walk", 6, 12, episodes=6, max_steps=20, policies=["solve_noisy", "random", "mostly_masked"]))
+        out.append(_c("n7_sparse_t7", "random_walk", 7, 40, tl=7, reward="sparse", episodes=6, max_steps=10, policies=LIMIT))
         out.append(_c("n3_dense_t500", "random_walk", 3, 31, tl=500, episodes=3, max_steps=503, probe_every=7,
                       policies=["survive"]))
         out.append(_c("n2_tdefault", "random_walk", 2, 9, tl=None, episodes=3, max_steps=503, probe_every=11,
